@@ -276,7 +276,7 @@ pub fn mutate(rng: &mut Rng, img: &mut Vec<u8>) -> &'static str {
             let klen = u16::from_le_bytes([img[s * B + 4], img[s * B + 5]]) as usize;
             match rng.below(4) {
                 0 => {
-                    let k = *rng.pick(&[0u16, 1, 4065, 4066, 4067, 4074, 4075, 4090, 65535, klen as u16 + 1]);
+                    let k = *rng.pick(&[0u16, 1, 4065, 4066, 4067, 4074, 4075, 4090, 65535, (klen as u16).wrapping_add(1)]);
                     img[s * B + 4..s * B + 6].copy_from_slice(&k.to_le_bytes());
                 }
                 1 if 6 + klen + 8 <= B => {
